@@ -94,6 +94,35 @@ def run_patch(case, sort=True, old=None, new=None):
     return pt, pre, rb
 
 
+def commented_ptext(case):
+    """the case's patching rulebook with a `%comment=<word>` on about half of its rules; the words come from the row
+    vocabulary, so that `row + " " + comment` can look like a longer row to a careless ordering lookup"""
+    rng = random.Random(len(case["ptext"]) * 13 + len(case["otext"]))
+    words = rbgen.NOUNS + rbgen.VALS
+    out = []
+    for line in case["ptext"].split("\n"):
+        if line.strip() and not line.lstrip().startswith("!") and rng.random() < 0.5:
+            line += ("  " if "%" not in line else " ") + "%comment=" + rng.choice(words)
+        out.append(line)
+    return "\n".join(out)
+
+
+def run_commented(case):
+    """make_patch with add_comments=False and add_comments=True from one pre (rules carry %comment texts)"""
+    from annet.annlib import patching
+    from annet.api import patch_from_pre
+    rb = rbgen.compile_rb(commented_ptext(case), case["otext"], case["vendor"])
+    hw = rbgen.Hw(case["vendor"])
+    try:
+        d = patching.make_diff(rbgen.to_odict(case["old"]), rbgen.to_odict(case["new"]), rb, [])
+        pre = patching.make_pre(d)
+        plain = patch_from_pre(pre, hw, rb, False)
+        shown = patch_from_pre(pre, hw, rb, True)
+    except AssertionError:
+        return None
+    return [rbgen.dump_patch(plain), rbgen.dump_patch(shown)]
+
+
 def impl(case):
     from annet.annlib import patching
     rbgen.setup()
@@ -102,6 +131,35 @@ def impl(case):
         return {"err": "AssertionError"}
     oc = patching.Orderer(rb["ordering"], case["vendor"]).order_config(rbgen.to_odict(case.get("oc", case["new"])))
     return {"patch": rbgen.dump_patch(pt), "ordered": rbgen.to_list(oc)}
+
+
+def comments_check(case, out):
+    """%comment texts are annotations: asking for them (add_comments=True) must not move a command. Position by position,
+    at every depth, the commented patch has the row of the plain patch, or that row followed by its comment."""
+    try:
+        both = run_commented(case)
+    except Exception as e:  # noqa  (a rulebook text the parser refuses with comments added is outside this clause)
+        return
+    if both is None:
+        return
+
+    def walk(plain, shown, path):
+        if len(plain) != len(shown):
+            return path, "%d commands without comments, %d with" % (len(plain), len(shown))
+        for (r0, c0, _k0), (r1, c1, _k1) in zip(plain, shown):
+            if not (r1 == r0 or r1.startswith(r0 + " ")):
+                return path, "position of %r is taken by %r when comments are shown" % (r0, r1)
+            if (c0 is None) != (c1 is None):
+                return path + (r0,), "block/leaf shape differs"
+            if c0 is not None:
+                bad = walk(c0, c1, path + (r0,))
+                if bad:
+                    return bad
+        return None
+    bad = walk(both[0], both[1], ())
+    if bad:
+        out.append(dict(sig="comments-move-commands", what="under %r: %s (plain order %r, with comments %r)" % (
+            list(bad[0]), bad[1], [x[0] for x in both[0]][:6], [x[0] for x in both[1]][:6])))
 
 
 def requests(case):
@@ -399,6 +457,7 @@ def oracle(case, r):
     nested_rank_check(case, pt, out)
     removal_first_check(case, pt, pre, rb, out)
     independence_check(case, pt, out, random.Random(len(case["ptext"]) * 7 + len(pt)))
+    comments_check(case, out)
     order_config_checks(case, r, rb, out)
     oc_rank_check(case, r["ordered"], out)
     seen, uniq = set(), []
